@@ -1,0 +1,95 @@
+//go:build verif
+
+package immutable
+
+// Verification hook (build tag `verif` only; reads the trie, changes nothing): the SHARING between
+// tries. Every heap object of a trie (the *hamt header, the node structs, the backing arrays of the
+// entries / nodes slices) is numbered when it is first reached from a value handed to VerifAlias; the
+// walk is pre-order (header, node, its backing array, children in slot order) and does not descend
+// below an object that already has a number. The formal model (lean/FpVerif/Model/HamtHeap.lean)
+// predicts these numbers from its own addresses, so a node that is shared where the model copies,
+// or copied where the model shares, is visible (property C04: path copying vs in-place update).
+
+import (
+	"unsafe"
+
+	"github.com/csgura/fp"
+)
+
+// VerifAliasTable remembers the number of every object seen so far. Holding the pointers keeps the
+// objects alive, so an address is never reused while the table lives.
+type VerifAliasTable struct {
+	ids map[unsafe.Pointer]int
+}
+
+func NewVerifAliasTable() *VerifAliasTable {
+	return &VerifAliasTable{ids: map[unsafe.Pointer]int{}}
+}
+
+// Len is the number of objects numbered so far.
+func (t *VerifAliasTable) Len() int { return len(t.ids) }
+
+type verifAliasWalk struct {
+	t      *VerifAliasTable
+	n, k   int
+	digest uint64
+}
+
+func (w *verifAliasWalk) visit(p unsafe.Pointer) (known bool) {
+	id, ok := w.t.ids[p]
+	if !ok {
+		id = len(w.t.ids)
+		w.t.ids[p] = id
+		w.k++
+	}
+	w.n++
+	w.digest = verifMix(w.digest, uint64(id))
+	return ok
+}
+
+// VerifAlias numbers the objects of the trie behind base and returns: objects visited, objects seen
+// for the first time, and the digest of the visited numbers (verifMix fold from 41). ok is false when
+// base is not a *hamt.
+func VerifAlias[K, V any](t *VerifAliasTable, base fp.MapBase[K, V]) (visited, fresh int, digest uint64, ok bool) {
+	m, isHamt := base.(*hamt[K, V])
+	if !isHamt || m == nil {
+		return 0, 0, 0, false
+	}
+	w := &verifAliasWalk{t: t, digest: 41}
+	if !w.visit(unsafe.Pointer(m)) && m.root != nil {
+		verifAliasNode(w, m.root)
+	}
+	return w.n, w.k, w.digest, true
+}
+
+func verifAliasNode[K, V any](w *verifAliasWalk, n mapNode[K, V]) {
+	switch n := n.(type) {
+	case *mapArrayNode[K, V]:
+		if !w.visit(unsafe.Pointer(n)) {
+			w.visit(unsafe.Pointer(unsafe.SliceData(n.entries)))
+		}
+	case *mapHashCollisionNode[K, V]:
+		if !w.visit(unsafe.Pointer(n)) {
+			w.visit(unsafe.Pointer(unsafe.SliceData(n.entries)))
+		}
+	case *mapBitmapIndexedNode[K, V]:
+		if !w.visit(unsafe.Pointer(n)) {
+			w.visit(unsafe.Pointer(unsafe.SliceData(n.nodes)))
+			for _, c := range n.nodes {
+				if c != nil {
+					verifAliasNode(w, c)
+				}
+			}
+		}
+	case *mapHashArrayNode[K, V]:
+		if !w.visit(unsafe.Pointer(n)) {
+			for _, c := range n.nodes {
+				if c != nil {
+					verifAliasNode(w, c)
+				}
+			}
+		}
+	case *mapValueNode[K, V]:
+		w.visit(unsafe.Pointer(n))
+	}
+}
